@@ -211,11 +211,12 @@ impl InputState {
         let s: String = self.input.iter().collect();
         if let Some(s) = s.strip_prefix("load ") {
             let file_comp = FilenameCompleter::new();
-            let pos = if self.input_index > 5 {
-                self.input_index - 5
-            } else {
-                0
-            };
+            // Byte offset of the cursor inside `s`
+            let pos = self.input[..self.input_index]
+                .iter()
+                .skip(5)
+                .map(|c| c.len_utf8())
+                .sum();
             let comps = file_comp.complete_path(s, pos);
             match comps {
                 Ok((_, comps)) => {
